@@ -24,9 +24,9 @@ Qed.
 (* what the client gets: 500 if no status had been sent yet (otherwise the status stands), the panic
    detail only in development mode; the handler index and the trace are left alone *)
 Theorem C15_response : forall head dev v s,
-  let s' := w_body head (CPanicPage v dev) (w_header 500 s) in
+  let s' := w_body head (CPanicPage v dev) (w_mark head (w_header 500 s)) in
   status s' = (if Z.eqb (status s) 0 then 500%Z else status s) /\
-  (head = false -> body s' = body s ++ [CPanicPage v dev]) /\
+  (head = false -> body s' = body s ++ (if wrapped s then [CBytes marker] else []) ++ [CPanicPage v dev]) /\
   idx s' = idx s.
 Proof. exact recovery_response. Qed.
 
@@ -47,7 +47,7 @@ Example C15_example :
   recov_cfg [HNormal [ANext; AWrite [120]%N] []; HRecovery; HNormal [AWrite [97]%N; APanic 3] []] None 1 /\
   serve [HNormal [ANext; AWrite [120]%N] []; HRecovery; HNormal [AWrite [97]%N; APanic 3] []] None false false None
   = Done (mkst 3 200 [CBytes [97]%N; CPanicPage 3 false; CBytes [120]%N] false
-            [Enter 0 0 false; NextCall 0; Enter 2 0 false; Sent; Unwind 2; NextRet 0; Exit 0] None).
+            [Enter 0 0 false; NextCall 0; Enter 2 0 false; Sent; Unwind 2; NextRet 0; Exit 0] None false).
 Proof.
   split.
   - split; [reflexivity|]. intros p Hp. assert (p = 0) by lia. subst p. eexists. eexists. repeat split. cbn. lia.
